@@ -167,7 +167,7 @@ def c04_jobs(tier):
         for role in (0, 1):
             for hm in (0, 1):
                 for n in range(0, nd + 1):
-                    jobs.append(job(ROOT, "HDecodeDecryptArbitrary", [s, role, 1, hm, n, 1], solver="z3-new", cut=cut_dd))
+                    jobs.append(job(ROOT, "HDecodeDecryptArbitrary", [s, role, 1, hm, n, 1], solver="z3-new", cut=cut_dd, wall_ms=900000))
                 for n in range(0, 28 + 8 + 1):
                     jobs.append(job(ROOT, "HDecodeDecryptArbitrary", [s, role, 1, hm, n, 0], solver="z3-new"))
                 # family 2: a skipped payload in front of the Encrypted payload (body 0 .. 16+16+icv)
@@ -175,7 +175,7 @@ def c04_jobs(tier):
                     for body in range(0, 16 + 32 + 16 + 1):
                         if q and (body + s + role + hm + l1) % 4 != 0 and body > 20:
                             continue
-                        jobs.append(job(ROOT, "HDecodeDecryptArbitrary", [s, role, 1, hm, 28 + l1 + 4 + body, 2, l1], solver="z3-new", cut=cut_dd))
+                        jobs.append(job(ROOT, "HDecodeDecryptArbitrary", [s, role, 1, hm, 28 + l1 + 4 + body, 2, l1], solver="z3-new", cut=cut_dd, wall_ms=900000))
     # genuine peer messages whose encrypted chain holds unsupported payloads (the code behind the inner
     # decoding loop is not reached by the cut jobs above)
     for i, s_ in enumerate((2, 7) if q else range(9)):
@@ -311,7 +311,7 @@ def c02_jobs(tier):
                     for body in range(0, 16 + 32 + 16 + 1):
                         if q and (body + s + role + hm + l1) % 4 != 0 and body > 20:
                             continue
-                        jobs.append(job(ROOT, "HUnprotectArbitrary", [s, role, hm, 28 + l1 + 4 + body, 2, l1], cut=cut_dd))
+                        jobs.append(job(ROOT, "HUnprotectArbitrary", [s, role, hm, 28 + l1 + 4 + body, 2, l1], cut=cut_dd, wall_ms=900000))
     # genuine messages, tampered / truncated / extended / reflected / presented under other keys
     shapes = [[], [40], [33, 41]] if q else [[]] + [[k] for k in PAYLOAD_KINDS] + [[33, 41], [47, 48]]
     for s in (suites if q else range(9)):
@@ -530,14 +530,14 @@ def c12_jobs(tier):
     q = tier == "quick"
     jobs = []
     A = dict(solver="cvc5")
-    nsa, nb, nloop, ncp, ne = (20, 28, 64, 24, 4 + 16) if q else (26, 44, 120, 26, 4 + 18)
+    nsa, nb, nloop, ncp, ne = (20, 28, 64, 24, 4 + 14) if q else (26, 44, 120, 26, 4 + 18)
     for k in range(33, 48):
         top = nsa if k == 33 else (ncp if k == 47 else (nloop if k in (44, 45) else nb))
         for n in range(0, top + 1):
             jobs.append(job(MSG, "HStableBody", [k, n], **A))
     for n in range(0, ne + 1):
-        jobs.append(job(EAP, "HStableEap", [n], **A))
-        jobs.append(job(MSG, "HStableBody", [48, n], **A))
+        jobs.append(job(EAP, "HStableEap", [n], wall_ms=1200000, **A))
+        jobs.append(job(MSG, "HStableBody", [48, n], wall_ms=1200000, **A))
     for n in range(28, (28 + 8 if q else 28 + 10) + 1):
         jobs.append(job(MSG, "HStableMessage", [n], **A))
     t = 1 if q else 2
@@ -707,7 +707,7 @@ PROPS = {
                 assumptions=["NewIKESAKey with a foreign integrity transform runs the Diffie-Hellman step before it fails: there the public and shared values are assumed to have no leading zero octet and the exponent rejection loop is unwound twice (unwinding assumption); C09 decides those cases"] + CRYPTO_ASSUME),
 
     "C12": dict(jobs=c12_jobs, claim="For every byte string up to the bound (arbitrary content, per payload body decoder, per EAP packet, and whole datagrams including chains with unsupported payloads): decode ok and encode ok imply that the re-encoding decodes to an equal value and encodes to itself (fixed point after one step); canonical datagrams of the independent encoder (zero reserved bits, no unsupported payloads, exact lengths, transforms grouped by ascending type) re-encode byte-identically. Loops are unrolled (the contents of what was decoded matter), and re-encoding concretises symbolic field lengths by solver enumeration, which is what limits the bound.",
-                bounds=lambda t: "payload bodies: SA <= %d octets, TS <= %d, CP <= %d, others <= %d; EAP packets <= %d; whole datagrams <= %d octets; canonical and liberal datagrams from the generator shapes (every kind alone, 15 pairs, three payloads with 600 data octets each); foreign SA payloads with up to %d transforms of arbitrary types" % ((20, 64, 24, 28, 20, 36, 3) if t == "quick" else (26, 120, 26, 44, 22, 38, 4)),
+                bounds=lambda t: "payload bodies: SA <= %d octets, TS <= %d, CP <= %d, others <= %d; EAP packets <= %d; whole datagrams <= %d octets; canonical and liberal datagrams from the generator shapes (every kind alone, 15 pairs, three payloads with 600 data octets each); foreign SA payloads with up to %d transforms of arbitrary types" % ((20, 64, 24, 28, 18, 36, 3) if t == "quick" else (26, 120, 26, 44, 22, 38, 4)),
                 outside="longer byte strings; a panic inside Encode of a decoded value would be reported as a panic violation (none found)"),
 
     "C17": dict(jobs=c17_jobs, claim="Inductive step instead of exploring histories: the SA key object starts in an arbitrary reachable state (every keyed-hash object with arbitrary octets already written - the HMAC buffer is the objects' only state and any content is reachable through a previous rejected message; ciphers satisfying the representation invariant) and one operation - protect as either role, unprotect a genuine message, reject an arbitrary datagram with invalid ICV, derive Child SA keys - must give the result a fresh object gives (accepted by / accepting a fresh peer, payloads equal, forged still rejected and the cipher not reached, keys equal to the specification), and must re-establish the invariant, which covers operation sequences of any length; two-operation sequences are run explicitly as a cross-check.",
